@@ -7,6 +7,8 @@ import (
 	"go/types"
 	"strings"
 
+	"golang.org/x/tools/go/ssa"
+
 	"utilcheck/flow"
 	"utilcheck/load"
 	"utilcheck/pred"
@@ -46,6 +48,8 @@ func runC08(e *Env) {
 	ruleC08Text(e)
 	ruleC08Max(e, e.P, "")
 	ruleC08Bytes(e)
+	ruleC08Object(e)
+	e.S.Floor("C08.object", 6)
 	e.S.Floor("C08.bytes", 24)
 	e.S.Floor("C08.ovf", 8)
 	e.S.Floor("C08.text", 6)
@@ -470,4 +474,185 @@ func ruleC08Bytes(e *Env) {
 			}
 		}
 	}
+}
+
+// ruleC08Object: in the JSON object form the number and the unit that reach newSize are exactly the decoded "value"
+// and "unit" members: unmarshalJSONObject passes to newOrError only nil or decodeValue's / decodeUnit's result,
+// newOrError dereferences exactly those two, decodeValue parses the number token in base 10 / 64 bits and
+// decodeUnit yields the string token unchanged.
+func ruleC08Object(e *Env) {
+	const rule = "C08.object"
+	fn := e.Fn(rule, "size", "unmarshalJSONObject")
+	noe := e.Fn(rule, "size", "newOrError")
+	dv := e.Fn(rule, "size", "decodeValue")
+	du := e.Fn(rule, "size", "decodeUnit")
+	ns := e.F("size", "newSize")
+	if fn == nil || noe == nil || dv == nil || du == nil || ns == nil {
+		return
+	}
+	// origins of a value through phis
+	var origins func(v ssa.Value, seen map[ssa.Value]bool, out *[]ssa.Value)
+	origins = func(v ssa.Value, seen map[ssa.Value]bool, out *[]ssa.Value) {
+		if seen[v] {
+			return
+		}
+		seen[v] = true
+		if p, ok := v.(*ssa.Phi); ok {
+			for _, ed := range p.Edges {
+				origins(ed, seen, out)
+			}
+			return
+		}
+		*out = append(*out, v)
+	}
+	site := flow.FnName(fn)
+	calls := e.C.Calls(fn, func(f *ssa.Function) bool { return f == noe })
+	if len(calls) != 1 {
+		e.S.Unk(rule, site, "newOrError", fmt.Sprintf("%d calls to newOrError, expected exactly one", len(calls)), e.Pos(fn))
+	} else {
+		c := calls[0]
+		for i, want := range []*ssa.Function{dv, du} {
+			var os []ssa.Value
+			origins(c.Call.Args[i], map[ssa.Value]bool{}, &os)
+			bad := ""
+			n := 0
+			for _, o := range os {
+				if flow.IsNilConst(o) {
+					continue
+				}
+				if ex, ok := o.(*ssa.Extract); ok && ex.Index == 0 {
+					if cc, ok := ex.Tuple.(*ssa.Call); ok && e.C.StaticCallee(&cc.Call) == want {
+						n++
+						continue
+					}
+				}
+				bad = o.String()
+			}
+			name := []string{"value", "unit"}[i]
+			switch {
+			case bad != "":
+				e.S.Bad(rule, site, name, "the "+name+" handed to newOrError can be something other than the decoded \""+name+"\" member ("+bad+"): the constructed size no longer is number × unit of the object", e.posOf(c), "")
+			case n == 0:
+				e.S.Bad(rule, site, name, "the decoded \""+name+"\" member never reaches newOrError", e.posOf(c), "")
+			default:
+				e.S.Ok(rule, site, name, "newOrError receives nil or the result of "+want.Name()+" and nothing else", e.posOf(c))
+			}
+		}
+		// and its result is returned unchanged
+		ok := false
+		for _, r := range flow.Returns(fn) {
+			if len(r.Results) == 2 {
+				e0, ok0 := r.Results[0].(*ssa.Extract)
+				e1, ok1 := r.Results[1].(*ssa.Extract)
+				if ok0 && ok1 && e0.Tuple == ssa.Value(c) && e1.Tuple == ssa.Value(c) && e0.Index == 0 && e1.Index == 1 {
+					ok = true
+				}
+			}
+		}
+		if ok {
+			e.S.Ok(rule, site, "result", "newOrError's result is returned unchanged", e.posOf(c))
+		} else {
+			e.S.Bad(rule, site, "result", "newOrError's (size, error) is not what the function returns", e.posOf(c), "")
+		}
+	}
+	// newOrError → newSize(*value, *unit)
+	{
+		site := flow.FnName(noe)
+		calls := e.C.Calls(noe, func(f *ssa.Function) bool { return flow.Origin(f) == ns })
+		if len(calls) != 1 {
+			e.S.Unk(rule, site, "newSize", fmt.Sprintf("%d calls to newSize, expected exactly one", len(calls)), e.Pos(noe))
+		} else {
+			c := calls[0]
+			ok := len(c.Call.Args) == 2
+			for i := 0; ok && i < 2; i++ {
+				u, isLoad := c.Call.Args[i].(*ssa.UnOp)
+				ok = isLoad && u.Op == token.MUL && u.X == ssa.Value(noe.Params[i])
+			}
+			if ok {
+				e.S.Ok(rule, site, "newSize", "newSize(*value, *unit) with the two parameters", e.posOf(c))
+			} else {
+				e.S.Bad(rule, site, "newSize", "newSize is not applied to (*value, *unit)", e.posOf(c), "")
+			}
+		}
+	}
+	// decodeValue: &u with u = ParseUint(number.String(), 10, 64)
+	pointee := func(f *ssa.Function) (ssa.Value, *ssa.Alloc) {
+		var al *ssa.Alloc
+		for _, r := range flow.Returns(f) {
+			if len(r.Results) == 2 && flow.IsNilConst(r.Results[1]) {
+				a, ok := r.Results[0].(*ssa.Alloc)
+				if !ok || (al != nil && al != a) {
+					return nil, nil
+				}
+				al = a
+			}
+		}
+		if al == nil {
+			return nil, nil
+		}
+		var stored ssa.Value
+		for _, r := range *al.Referrers() {
+			if st, ok := r.(*ssa.Store); ok && st.Addr == ssa.Value(al) {
+				if stored != nil {
+					return nil, al
+				}
+				stored = st.Val
+			}
+		}
+		return stored, al
+	}
+	tokenOf := func(v ssa.Value) bool { // v is result #0 of d.Token()
+		ex, ok := v.(*ssa.Extract)
+		if !ok || ex.Index != 0 {
+			return false
+		}
+		c, ok := ex.Tuple.(*ssa.Call)
+		return ok && c.Call.IsInvoke() && c.Call.Method.Name() == "Token"
+	}
+	{
+		site := flow.FnName(dv)
+		st, _ := pointee(dv)
+		ok := false
+		if ex, isEx := st.(*ssa.Extract); isEx && ex.Index == 0 {
+			if c, isC := ex.Tuple.(*ssa.Call); isC && calleeName(&c.Call) == "strconv.ParseUint" && len(c.Call.Args) == 3 {
+				b, okb := flow.ConstInt(c.Call.Args[1])
+				w, okw := flow.ConstInt(c.Call.Args[2])
+				// the text is (json.Number).String() of the asserted token
+				txt := false
+				if sc, isS := c.Call.Args[0].(*ssa.Call); isS && calleeName(&sc.Call) == "(encoding/json.Number).String" {
+					if ta := typeAssertOperand(sc.Call.Args[0]); ta != nil && tokenOf(ta) {
+						txt = true
+					}
+				}
+				ok = okb && okw && b == 10 && w == 64 && txt
+			}
+		}
+		if ok {
+			e.S.Ok(rule, site, "number", "&u with u = strconv.ParseUint(token.(json.Number).String(), 10, 64)", e.Pos(dv))
+		} else {
+			e.S.Bad(rule, site, "number", "the value member is not the number token parsed in base 10 into 64 bits", e.Pos(dv), "")
+		}
+	}
+	{
+		site := flow.FnName(du)
+		st, _ := pointee(du)
+		if st != nil {
+			if ta := typeAssertOperand(st); ta != nil && tokenOf(ta) {
+				e.S.Ok(rule, site, "unit", "&s with s = token.(string), unchanged", e.Pos(du))
+				return
+			}
+		}
+		e.S.Bad(rule, site, "unit", "the unit member is not the string token unchanged", e.Pos(du), "")
+	}
+}
+
+// typeAssertOperand: v is `x.(T)` (plain or comma-ok, result #0) — returns x.
+func typeAssertOperand(v ssa.Value) ssa.Value {
+	if ex, ok := v.(*ssa.Extract); ok && ex.Index == 0 {
+		v = ex.Tuple
+	}
+	if ta, ok := v.(*ssa.TypeAssert); ok {
+		return ta.X
+	}
+	return nil
 }
